@@ -22,14 +22,16 @@ end are not offered (the crate has no sparse files): the new position when the t
 def seekSpec (size pos : Nat) (p : SeekFrom) : Option Nat :=
   if 0 ≤ target size pos p ∧ target size pos p ≤ (size : Int) then some (target size pos p).toNat else none
 
-/-- The argument passes the integer conversions of `Seek::seek`: `Start(o)`: `o` fits `u32`;
-`End(o)`: `-o` exists and fits `u32`; `Current(o)`: `o` fits `i32`. -/
-def ConvOK : SeekFrom → Prop
+/-- The argument passes the integer arithmetic of `Seek::seek` (`pos` is the current position, which
+only `Current` looks at): `Start(o)`: `o` fits `u32`; `End(o)`: `-o` exists and fits `u32`;
+`Current(o)`: `pos + o` exists as an `i64` and fits `u32` — i.e. lies in `[0, u32::MAX]`, a sum
+outside the `i64` range being outside that interval anyway (`Sdmmc.Lemmas.Wrap.convOK_current_iff`). -/
+def ConvOK (pos : Nat) : SeekFrom → Prop
   | .start o => o ≤ U32_MAX
   | .end_ o => -(U32_MAX : Int) ≤ o ∧ o ≤ 0
-  | .current o => I32_MIN ≤ o ∧ o ≤ I32_MAX
+  | .current o => 0 ≤ (pos : Int) + o ∧ (pos : Int) + o ≤ (U32_MAX : Int)
 
-instance (p : SeekFrom) : Decidable (ConvOK p) := by
+instance (pos : Nat) (p : SeekFrom) : Decidable (ConvOK pos p) := by
   cases p <;> unfold ConvOK <;> exact inferInstance
 
 /-- What `_ = result` leaves of a result: `Ok(())`, unless the call did not return at all. -/
